@@ -243,12 +243,15 @@ func equivRefs(eq int) []string {
 		return nil
 	}
 
+	// (a slice with spare capacity, as a JSON decoder or append leaves it)
+	out := make([]string, 0, 8)
+
 	// odd ids: a repeated entry followed by another one (the list is carried as given)
 	if eq%2 == 1 {
-		return []string{fmt.Sprintf("eq-%d-a", eq), fmt.Sprintf("eq-%d-a", eq), fmt.Sprintf("eq-%d-b", eq)}
+		return append(out, fmt.Sprintf("eq-%d-a", eq), fmt.Sprintf("eq-%d-a", eq), fmt.Sprintf("eq-%d-b", eq))
 	}
 
-	return []string{fmt.Sprintf("eq-%d-a", eq), fmt.Sprintf("eq-%d-b", eq)}
+	return append(out, fmt.Sprintf("eq-%d-a", eq), fmt.Sprintf("eq-%d-b", eq))
 }
 
 // notAMultihash: a string where a multihash is expected that is none, in one of several shapes (by rotation):
